@@ -15,7 +15,8 @@
    HashMap / HashSet arguments are association lists / lists (first match wins; the harness
    only builds maps with unique keys), Arc<Node> identity (Arc::ptr_eq) is equality of the
    [node] record: the harness gives every Node object a distinct (host, gen, dc) triple.
-   A Rust panic (failed assert!, out-of-range drain) is the result [None]. *)
+   A Rust panic (Vec::drain with start > end) is the result [None]; C15_no_panic proves it
+   never happens. *)
 From SV Require Import Base.Prelude.
 Open Scope Z_scope.
 
@@ -106,39 +107,24 @@ Definition re_resolve (current : list node) (t : tablet) : option tablet :=
     if is_nil f then Some (mkTablet (t_first t) (t_last t) (mk_reps a) None) else None
   end.
 
-(* Tablet::update_stale_nodes, first loop (over replicas.all): None = the assert! fails;
-   the bool is any_updated *)
-Fixpoint update_all (rec : list node) (l : list replica) : option (list replica * bool) :=
+(* Tablet::update_stale_nodes, first loop (over replicas.all); the bool is any_updated.
+   A replica that already IS the recreated object (Arc::ptr_eq) is skipped. *)
+Fixpoint update_all (rec : list node) (l : list replica) : list replica * bool :=
   match l with
-  | [] => Some ([], false)
+  | [] => ([], false)
   | (n, s) :: r =>
+    let (r', u) := update_all rec r in
     match find_node rec (host n) with
-    | Some n' =>
-      if node_eqb n' n then None
-      else match update_all rec r with
-           | Some (r', _) => Some ((n', s) :: r', true)
-           | None => None
-           end
-    | None =>
-      match update_all rec r with
-      | Some (r', u) => Some ((n, s) :: r', u)
-      | None => None
-      end
+    | Some n' => if node_eqb n' n then ((n, s) :: r', u) else ((n', s) :: r', true)
+    | None => ((n, s) :: r', u)
     end
   end.
 
-(* second loop (over the per_dc vectors): no assert, the datacenter KEY is kept *)
-Definition swap_node (rec : list node) (r : replica) : replica :=
-  match find_node rec (host (fst r)) with Some n' => (n', snd r) | None => r end.
-
-Definition update_stale (rec : list node) (t : tablet) : option tablet :=
-  match update_all rec (r_all (t_reps t)) with
-  | None => None
-  | Some (a', upd) =>
-    let pd := r_per_dc (t_reps t) in
-    let pd' := if upd then map (fun kv => (fst kv, map (swap_node rec) (snd kv))) pd else pd in
-    Some (mkTablet (t_first t) (t_last t) (mkReps a' pd') (t_failed t))
-  end.
+(* if any_updated, the per-DC index is rebuilt from `all` *)
+Definition update_stale (rec : list node) (t : tablet) : tablet :=
+  let (a', upd) := update_all rec (r_all (t_reps t)) in
+  let pd := r_per_dc (t_reps t) in
+  mkTablet (t_first t) (t_last t) (mkReps a' (if upd then group_dc a' else pd)) (t_failed t).
 
 (* slice::partition_point on a partitioned slice: number of leading elements satisfying p
    (C15_partitioned proves the slices are partitioned, C15_bsearch that the binary search of
@@ -202,15 +188,6 @@ Definition add_tablet (tt : table_tablets) (t : tablet) : option table_tablets :
   if (right_idx <? left_idx)%nat then None
   else Some (mkTT (firstn left_idx l ++ t :: skipn right_idx l) flag).
 
-Fixpoint map_opt {A B} (f : A -> option B) (l : list A) : option (list B) :=
-  match l with
-  | [] => Some []
-  | x :: r => match f x, map_opt f r with
-              | Some y, Some r' => Some (y :: r')
-              | _, _ => None
-              end
-  end.
-
 Fixpoint filter_map {A B} (f : A -> option B) (l : list A) : list B :=
   match l with
   | [] => []
@@ -222,15 +199,13 @@ Definition memN (x : N) (l : list N) : bool := existsb (N.eqb x) l.
 Definition no_removed_replica (removed : list N) (t : tablet) : bool :=
   forallb (fun r => negb (memN (host (fst r)) removed)) (r_all (t_reps t)).
 
-(* TableTablets::perform_maintenance; None = the assert! in update_stale_nodes fails *)
+(* TableTablets::perform_maintenance *)
 Definition table_maintenance (removed : list N) (current recreated : list node)
-           (tt : table_tablets) : option table_tablets :=
+           (tt : table_tablets) : table_tablets :=
   let l1 := if tt_flag tt then filter_map (re_resolve current) (tt_list tt) else tt_list tt in
   let l2 := if is_nil removed then l1 else filter (no_removed_replica removed) l1 in
-  match (if is_nil recreated then Some l2 else map_opt (update_stale recreated) l2) with
-  | Some l3 => Some (mkTT l3 false)
-  | None => None
-  end.
+  let l3 := if is_nil recreated then l2 else map (update_stale recreated) l2 in
+  mkTT l3 false.
 
 (* table key: (keyspace name, table name) *)
 Definition tkey := (N * N)%type.
@@ -283,16 +258,12 @@ Definition add_missing (m : list (tkey * table_tablets)) (k : tkey) : list (tkey
 
 (* TabletsInfo::perform_maintenance *)
 Definition info_maintenance (kss : list ksdesc) (removed : list N) (current recreated : list node)
-           (s : info) : option info :=
+           (s : info) : info :=
   let t1 := filter (fun kv => keep_table kss (fst kv)) (i_tables s) in
   let t2 := fold_left add_missing (schema_tables kss) t1 in
   if negb (is_nil removed) || negb (is_nil recreated) || i_flag s then
-    match map_opt (fun kv => option_map (pair (fst kv))
-                                        (table_maintenance removed current recreated (snd kv))) t2 with
-    | Some t3 => Some (mkInfo t3 false)
-    | None => None
-    end
-  else Some (mkInfo t2 false).
+    mkInfo (map (fun kv => (fst kv, table_maintenance removed current recreated (snd kv))) t2) false
+  else mkInfo t2 false.
 
 (* RawTablet::from_custom_payload after deserialisation of (first, last, [(uuid, shard:i32)]) *)
 Inductive perr := WrongTokenRange | ShardNum.
@@ -330,7 +301,7 @@ Definition step (s : info) (o : op) : option info :=
     | Err _ => Some s
     | Ok (first, last, r) => info_add s k (from_raw_tablet first last r known)
     end
-  | Maintain kss removed current recreated => info_maintenance kss removed current recreated s
+  | Maintain kss removed current recreated => Some (info_maintenance kss removed current recreated s)
   end.
 
 Definition run_from (s : option info) (h : list op) : option info :=
@@ -354,6 +325,16 @@ Definition op_i64b (o : op) : bool :=
 (* ------------------------------------------------------------------------------------ *)
 (* PART 2 — the specification (from the property text)                                   *)
 (* ------------------------------------------------------------------------------------ *)
+
+(* the tablets of a table: every range non-empty and inside i64, and the list sorted with
+   pairwise disjoint ranges (an earlier tablet ends strictly before a later one starts) *)
+Definition tablets_inv (l : list tablet) : Prop :=
+  (forall t, In t l -> i64_ok (t_first t) /\ i64_ok (t_last t) /\ t_first t <= t_last t) /\
+  (forall i j x y, (i < j)%nat -> nth_error l i = Some x -> nth_error l j = Some y -> t_last x < t_first y).
+
+(* a slice is partitioned by p at n: the contract under which slice::partition_point returns n *)
+Definition split_at {A} (p : A -> bool) (l : list A) (n : nat) : Prop :=
+  (n <= List.length l)%nat /\ forallb p (firstn n l) = true /\ forallb (fun x => negb (p x)) (skipn n l) = true.
 
 (* What is known about ONE token of ONE table: the tablet it was last learnt to belong to. *)
 Record entry := mkEntry {
@@ -475,37 +456,4 @@ Fixpoint ranges_okb (l : list (Z * Z)) : bool :=
   | (f, la) :: r =>
     (f <=? la) && i64_okb f && i64_okb la &&
     match r with [] => true | (f', _) :: _ => la <? f' end && ranges_okb r
-  end.
-
-(* known-finding classes (decided on the case, not on the outcome) *)
-
-Definition op_nodes (o : op) : list node :=
-  match o with
-  | Learn _ _ _ _ known => known
-  | Maintain _ _ current recreated => current ++ recreated
-  end.
-Definition hist_nodes (h : list op) : list node := flat_map op_nodes h.
-
-(* class "recreated-node-dc-change": some host id appears in the history with two datacenters *)
-Definition dc_conflict (l : list node) : bool :=
-  existsb (fun n => existsb (fun m => (host n =? host m)%N && negb (optN_eqb (ndc n) (ndc m))) l) l.
-Definition hist_dc_conflict (h : list op) : bool := dc_conflict (hist_nodes h).
-
-Definition tablet_nodes (t : tablet) : list node :=
-  map fst (r_all (t_reps t)) ++ flat_map (fun kv => map fst (snd kv)) (r_per_dc (t_reps t)).
-Definition state_nodes (s : info) : list node :=
-  flat_map (fun kv => flat_map tablet_nodes (tt_list (snd kv))) (i_tables s).
-Definition mem_node (n : node) (l : list node) : bool := existsb (node_eqb n) l.
-
-(* class "maintenance-assert-reresolved-recreated": the maintenance step panics although none of
-   the recreated Node objects is stored in any tablet before the call (so the object that trips
-   the assert! was put there by the re-resolution step of the same call) *)
-Definition known_panic (s : info) (o : op) : bool :=
-  match o with
-  | Maintain kss removed current recreated =>
-    match step s o with
-    | None => forallb (fun n => negb (mem_node n (state_nodes s))) recreated
-    | Some _ => false
-    end
-  | Learn _ _ _ _ _ => false
   end.
